@@ -132,6 +132,8 @@ class _PVTKReader:
 
     def _merge_cell_fields(self, piece_fields, decomposition, merger) -> dict[str, list[ndarray]]:
         cts = set(ct for p in piece_fields for _, ct in p.cell_fields_types)
+        if not cts:  # no cell data defined
+            return {}
         assert len(cts) == 1
         ct = cts.pop()
 
